@@ -36,7 +36,12 @@ def models(tier):
         yield "state", dt
 
 
-def build_model(name, dt):
+def build_model(name, dt, continuous=False):
+    if name == "combined" and continuous:
+        spec = build_model(name, dt)
+        spec["progs"]["progs"][0]["oneoff"] = False  # P1 becomes a continuous program (unit cost per person per year)
+        spec["progs"]["progs"][0]["uc"] = 40.0
+        return spec
     if name.startswith("generic:"):
         return copy.deepcopy(dict(generic_specs())[name[8:]])
     if name == "combined":
@@ -54,9 +59,9 @@ def build_model(name, dt):
 
 
 KINDS = {
-    "combined": ["prog_start", "budget", "capacity", "coverage", "stop"] + [f"scen:{t}:{i}" for t in ("vr", "pb", "pa", "br", "age") for i in ("linear", "previous")] + [f"scen2:{t}:{i}" for t in ("pb", "vr") for i in ("linear", "previous")] + ["extend"],
+    "combined": ["prog_start", "budget", "capacity", "coverage", "capacity_continuous", "budget_continuous", "stop", "extend_scen:vr:linear", "extend_scen:vr:previous", "extend_scen:pb:linear"] + [f"scen:{t}:{i}" for t in ("vr", "pb", "pa", "br", "age") for i in ("linear", "previous")] + [f"scen2:{t}:{i}" for t in ("pb", "vr") for i in ("linear", "previous")] + ["extend"],
     "agg": [f"scen:{t}:{i}" for t in ("mix", "rec") for i in ("linear", "previous")] + [f"scen2:{t}:{i}" for t in ("inf", "foi") for i in ("linear", "previous")] + ["extend"],
-    "state": ["prog_start", "budget", "stop"] + [f"scen:{t}:{i}" for t in ("p1", "drv", "p2") for i in ("linear", "previous")] + ["extend"],
+    "state": ["prog_start", "budget", "capacity", "coverage", "stop", "extend_scen:p1:linear", "extend_scen:drv:linear"] + [f"scen:{t}:{i}" for t in ("p1", "drv", "p2") for i in ("linear", "previous")] + ["extend"],
 }
 
 
@@ -144,7 +149,8 @@ def ys(t, dt):
 
 def run_case(case):
     name, dt, kind = case["model"], case["dt"], case["kind"]
-    spec = build_model(name, dt)
+    spec = build_model(name, dt, continuous=kind.endswith("_continuous"))
+    kind = kind.replace("_continuous", "")
     w = World(spec)
     t = w.P.settings.tvec
     vs = []
@@ -170,6 +176,34 @@ def run_case(case):
                 vs.append(V("extension-changes-earlier-output", f"{lab0}: {k} differs before the original end year", None))
                 break
         return dict(states=nT, transitions=nT - 1, nontrivial=True, violations=vs, counters=dict(pairs=1))
+
+    if kind.startswith("extend_scen:"):
+        _, target, interp = kind.split(":")
+        pop = w.parset.pop_names[0]
+        v1, v2 = dict(vr=(0.8, 0.1), pb=(0.9, 0.2), p1=(0.9, 0.05), drv=(0.6, 0.01))[target]
+        t_end = float(t[-1])
+        for Y in (float(t[1]), float(t[len(t) // 2]), float(t[len(t) // 2] + 0.4 * dt)):
+            for beyond in (t_end + 0.5, t_end + 3.0):
+                def run(end):
+                    w2 = World(dict(spec, sim=[spec["sim"][0], end, dt]))
+                    sc_ = at.ParameterScenario(name="s", interpolation=interp)
+                    sc_.add(target, pop, [Y, beyond], [v1, v2])  # the second point lies beyond the (shorter) end year
+                    return w2.P.run_sim(sc_.get_parset(w2.parset, w2.P), store_results=False)
+                base, ext = run(spec["sim"][1]), run(spec["sim"][1] + 4.0)
+                a, b = arrays(base), arrays(ext)
+                nT = len(base.model.t)
+                trans += 1
+                states += nT
+                for k, va in a.items():
+                    if not np.allclose(va[:nT], b[k][:nT], rtol=1e-12, atol=1e-300, equal_nan=True):
+                        i = int(np.argmax(~np.isclose(va[:nT], b[k][:nT], rtol=1e-12, atol=1e-300, equal_nan=True).reshape(nT, -1).all(axis=1)))
+                        vs.append(V("extension-changes-earlier-output", f"{lab0}: scenario on {target} from {Y!r} ramping to {beyond!r}: {k} at t={base.model.t[i]!r} differs between end years {spec['sim'][1]} and {spec['sim'][1] + 4.0}", None))
+                        break
+                if vs:
+                    break
+            if vs:
+                break
+        return dict(states=states, transitions=trans, nontrivial=True, violations=vs[:3], counters=dict(pairs=trans))
 
     if kind.startswith("scen2:"):
         # the same parameter is overwritten in two populations with different first years: the intervention is the SECOND population's overwrite,
